@@ -216,10 +216,176 @@ Solve ==
                   \cup (IF ~E.ok /\ E.err = NotConvergedMsg THEN {"solves_not_converged"} ELSE {})
                   \cup (IF E.ok /\ ~E.default_solver THEN {"solve_ok_last:" \o E.chain[Len(E.chain)].algo} ELSE {}))
 
+
+\* ---------------------------------------------------------------- C19
+(* Response of a solved profile in a FIXED external potential to its bulk state.  The recorder re-solves the profile at  *)
+(* neighbouring bulk states (each partial density, the pressure at constant T and x, the temperature at constant p and  *)
+(* x; relative steps -2h, -h, +h, +2h) and logs N_i, Omega and the bulk chemical potentials mu_i (up to a function of  *)
+(* T).  With St(.) the 4th-order difference over the four neighbours (common factor 1/(12 h) dropped on both sides):    *)
+(*   Gibbs adsorption     St(Omega) = - sum_k N_k St(mu_k)                       along every partial density          *)
+(*   dn_dmu               St(N_i)   =   sum_k (dN_i/dmu_k) St(mu_k)              along every partial density          *)
+(*   dn_dp, dn_dt         St(N_i) / (h p) = dN_i/dp,   St(N_i) / (h T) = dN_i/dT                                       *)
+(*   Maxwell              dN_i/dmu_k = dN_k/dmu_i,  dN_i/dmu_i > 0                                                      *)
+(*   enthalpy of adsorption   sum_i (dN_i/dmu_k) h_i = - T dN_k/dT,   h_ads = sum_i x_i h_i                             *)
+(* The three derivative laws are identities of the discrete solution map and hold to difference-quotient accuracy on    *)
+(* every grid; the Gibbs relation needs the functional derivative to be the gradient of the discrete functional and    *)
+(* inherits the adjointness defect of curved grids (C17).                                                                *)
+St4(P) == FAdd(FSub(FMul("8", FSub(P[3], P[2])), P[4]), P[1])
+NodeCol(nodes, f) == [k \in 1..4 |-> nodes[k][f]]
+NodeColI(nodes, f, i) == [k \in 1..4 |-> nodes[k][f][i]]
+RInfo == <<E.functional, E.geometry, E.potential, E.pore_size, E.T_reduced, E.fraction_of_saturation>>
+\* relative tolerance of a difference quotient of re-solved profiles: truncation + solver noise (absolute residual of the
+\* density vs the smallest bulk partial density, amplified by 1/h)
+AllNodes(e) == e.p_nodes \o e.t_nodes \o [k \in 1..(4 * Len(e.rho_nodes)) |-> e.rho_nodes[((k - 1) \div 4) + 1][((k - 1) % 4) + 1]]
+MaxResidual(e) == FMaxAbs([k \in 1..Len(AllNodes(e)) |-> AllNodes(e)[k].residual] \o <<e.base.residual>>)
+MinRho(e) == LET r == e.base.rho IN r[CHOOSE i \in 1..Len(r) : \A j \in 1..Len(r) : FLe(r[i], r[j])]
+TolResponse(e) == FAdd("1e-6", FDiv(FMul("50", MaxResidual(e)), FMul(e.h, MinRho(e))))
+TolGibbs(g, n) == IF g = "slit" THEN "1e-7"
+                  ELSE IF g = "spherical" THEN FAdd("2e-4", FMul("4e-2", FPowInt(FOfRatio(512, n), 2)))
+                  ELSE FAdd("2e-4", FMul("2e-3", FPowInt(FOfRatio(512, n), 2)))
+Response ==
+  /\ Ev("Response")
+  /\ LET nc == E.components
+         b == E.base
+         tol == TolResponse(E)
+         ok == E.complete /\ E.derivatives_ok
+     IN
+     /\ Report("C19.derivatives_available", <<RInfo, IF Has(E, "why") THEN E.why ELSE "", l>>, E.derivatives_ok)
+     /\ (ok =>
+          /\ \A j \in 1..nc :
+               LET nd == E.rho_nodes[j]
+                   dmu == [k \in 1..nc |-> St4(NodeColI(nd, "mu", k))]
+                   dom == St4(NodeCol(nd, "omega"))
+                   rhs == FNeg(FDot(b.N, dmu))
+               IN /\ Chk("C19.gibbs_adsorption", <<RInfo, j, dom, rhs, l>>, dom, rhs, FAdd(tol, TolGibbs(E.geometry, E.points)), FDotAbs(b.N, dmu), "0")
+                  /\ \A i \in 1..nc :
+                       LET dn == St4(NodeColI(nd, "N", i))
+                           col == [k \in 1..nc |-> E.dn_dmu[k][i]]
+                           scl == FSum([ii \in 1..nc |-> FDotAbs([k \in 1..nc |-> E.dn_dmu[k][ii]], dmu)])
+                       IN Chk("C19.dn_dmu", <<RInfo, j, i, dn, FDot(col, dmu), l>>, dn, FDot(col, dmu), tol, scl, "0")
+          /\ \A i \in 1..nc :
+               /\ Chk("C19.dn_dp", <<RInfo, i, l>>, FDiv(St4(NodeColI(E.p_nodes, "N", i)), FMul("12", FMul(E.h, b.p))), E.dn_dp[i], tol, FSumAbs(E.dn_dp), "0")
+               /\ Chk("C19.dn_dt", <<RInfo, i, l>>, FDiv(St4(NodeColI(E.t_nodes, "N", i)), FMul("12", FMul(E.h, b.T))), E.dn_dt[i], tol, FSumAbs(E.dn_dt), "0")
+               /\ Report("C19.dn_dmu_positive", <<RInfo, i, E.dn_dmu[i][i], l>>, FLt("0", E.dn_dmu[i][i]))
+               /\ \A k \in 1..nc : Chk("C19.dn_dmu_symmetric", <<RInfo, i, k, l>>, E.dn_dmu[i][k], E.dn_dmu[k][i], "1e-6", FSqrt(FAbs(FMul(E.dn_dmu[i][i], E.dn_dmu[k][k]))), "0")
+          /\ (Has(E, "h_partial") =>
+                /\ \A k \in 1..nc : Chk("C19.enthalpy_of_adsorption_partial", <<RInfo, k, l>>, FDot(E.dn_dmu[k], E.h_partial), FNeg(FMul(b.T, E.dn_dt[k])), "1e-8",
+                                          FAdd(FDotAbs(E.dn_dmu[k], E.h_partial), FAbs(FMul(b.T, E.dn_dt[k]))), "0")
+                /\ (Has(E, "h_ads") => Chk("C19.enthalpy_of_adsorption", <<RInfo, l>>, E.h_ads, FDot(E.x, E.h_partial), "1e-10", FDotAbs(E.x, E.h_partial), "0"))))
+  /\ cnt' = BumpAll(cnt, {"responses", "response:" \o E.geometry, "response_potential:" \o E.potential, "functional:" \o E.functional}
+                \cup (IF E.complete /\ E.derivatives_ok THEN {"responses_judged"} ELSE {}) \cup (IF E.components > 1 THEN {"responses_mixture"} ELSE {})
+                \cup (IF E.chain THEN {"responses_chain"} ELSE {}))
+  /\ UNCHANGED refobs
+
+(* Henry limit: N_i / (x_i p) -> H_i for p -> 0.  The recorder logs a ladder of bulk states whose density decreases by a    *)
+(* factor 4 per rung; with r_k the ratio at rung k, the linear extrapolation E_k = (4 r_(k+1) - r_k) / 3 removes the term    *)
+(* linear in p, so |E_k - H| is bounded by the quadratic term, itself bounded by the last difference |r_(k+1) - r_k|;       *)
+(* judged on the three lowest rungs (at higher pressures the linear and quadratic terms may cancel in the difference).       *)
+(* Temperature dependence: the reported ideal-gas enthalpy of adsorption equals R d ln H / d(1/T) = - T^2 d ln H / dT.        *)
+HInfo == <<E.functional, E.geometry, E.potential, E.pore_size, E.T_reduced>>
+Henry ==
+  /\ Ev("Henry")
+  /\ LET pan == Has(E, "panic") IN
+     /\ Report("C19.henry_available", <<HInfo, IF pan THEN E.panic ELSE "", l>>, ~pan \/ E.segments_m_not_one)
+     /\ (~pan /\ Len(E.t_nodes) = 5 =>
+           LET t0 == E.t_nodes[1]  nc == Len(t0.henry) IN
+           /\ \A i \in 1..nc :
+                LET lnH == [k \in 1..4 |-> FLn(E.t_nodes[k + 1].henry[i])]
+                    d == FDiv(St4(lnH), FMul("12", FMul(E.h, E.T)))
+                IN /\ Report("C19.henry_positive", <<HInfo, i, t0.henry[i], l>>, FLt("0", t0.henry[i]) /\ FFinite(t0.henry[i]))
+                   /\ Chk("C19.ideal_gas_enthalpy_of_adsorption", <<HInfo, i, l>>, t0.h_ig[i], FNeg(FMul(FMul(E.T, E.T), d)), "1e-7", FAdd(FAbs(t0.h_ig[i]), E.T), "0")
+           /\ (Len(E.ladder) >= 3 =>
+                 \A i \in 1..nc : \A k \in (Len(E.ladder) - 3)..(Len(E.ladder) - 1) : k >= 1 =>
+                    LET r(kk) == FDiv(E.ladder[kk].N[i], FMul(E.ladder[kk].p, E.ladder[kk].x[i]))
+                        ek == FDiv(FSub(FMul("4", r(k + 1)), r(k)), "3")
+                    IN Chk("C19.henry_limit", <<HInfo, i, k, ek, t0.henry[i], l>>, ek, t0.henry[i], "1e-4", FAbs(t0.henry[i]), FMul("0.35", FAbs(FSub(r(k + 1), r(k)))))))
+  /\ cnt' = BumpAll(cnt, {"henry_cases", "henry:" \o E.geometry, "henry_potential:" \o E.potential, "functional:" \o E.functional}
+                \cup (IF Has(E, "panic") THEN {"henry_refused_for_chains"} ELSE {})
+                \cup (IF ~Has(E, "panic") /\ Len(E.ladder) >= 3 THEN {"henry_limits_judged"} ELSE {}))
+  /\ UNCHANGED refobs
+
+(* Planar interfaces.  SurfaceTension: one temperature, several (box length, points): every solved run reports the same     *)
+(* surface tension; pDGT stays within the calibrated band; the interface initialised from pDGT gives the same value.         *)
+(* SurfaceTensionCurve: gamma decreases with temperature and vanishes towards the critical point at least like the          *)
+(* mean-field law (1 - T/Tc)^(3/2) (these functionals are mean-field theories) within a factor; the diagram driver returns  *)
+(* a sub-sequence of the requested temperatures and each of its values equals the stand-alone value.                         *)
+TolGammaGrid == "2e-5"
+TolPdgt == "0.2"
+SInfo == <<E.functional, E.T_reduced>>
+OkRuns(runs) == SelectSeq(runs, LAMBDA r : r.ok)
+SurfaceTension ==
+  /\ Ev("SurfaceTension")
+  /\ LET ok == OkRuns(E.runs) IN
+     /\ (Len(ok) >= 1 =>
+          LET g0 == ok[1].gamma IN
+          /\ Report("C19.surface_tension_positive", <<SInfo, g0, l>>, FLt("0", g0) /\ FFinite(g0))
+          /\ \A k \in 2..Len(ok) : Chk("C19.surface_tension_grid_independent", <<SInfo, ok[k].L, ok[k].n, ok[1].L, ok[1].n, l>>, ok[k].gamma, g0, TolGammaGrid, FAbs(g0), "0")
+          /\ (Has(E, "gamma_pdgt") => Chk("C19.pdgt_close_to_dft", <<SInfo, E.gamma_pdgt, g0, l>>, E.gamma_pdgt, g0, TolPdgt, FAbs(g0), "0"))
+          /\ (Has(E, "from_pdgt") /\ E.from_pdgt.ok => Chk("C19.surface_tension_grid_independent", <<SInfo, "from_pdgt", E.from_pdgt.L, l>>, E.from_pdgt.gamma, g0, TolGammaGrid, FAbs(g0), "0")))
+  /\ cnt' = BumpAll(BumpBy(BumpBy(cnt, "interface_solves", Len(E.runs)), "interface_solves_ok", Len(OkRuns(E.runs))),
+                {"surface_tension_cases", "functional:" \o E.functional} \cup (IF Has(E, "gamma_pdgt") THEN {"pdgt_compared"} ELSE {}))
+  /\ UNCHANGED refobs
+
+CInfo == <<E.functional>>
+SurfaceTensionCurve ==
+  /\ Ev("SurfaceTensionCurve")
+  /\ LET pts == SelectSeq(E.curve \o E.near_critical, LAMBDA c : Has(c, "gamma"))
+         one == "1"
+     IN
+     /\ \A k \in 1..(Len(pts) - 1) :
+          /\ Report("C19.surface_tension_decreases_with_temperature", <<CInfo, pts[k], pts[k + 1], l>>, FLt(pts[k].T_reduced, pts[k + 1].T_reduced) => FLt(pts[k + 1].gamma, pts[k].gamma))
+          /\ Report("C19.surface_tension_vanishes_at_critical_point", <<CInfo, pts[k], pts[k + 1], l>>,
+                    FLe(pts[k + 1].gamma, FMul("2", FMul(pts[k].gamma, FPow(FDiv(FSub(one, pts[k + 1].T_reduced), FSub(one, pts[k].T_reduced)), "1.5")))))
+     /\ \A d \in 1..Len(E.diagrams) :
+          LET dg == E.diagrams[d] IN
+          /\ Report("C19.diagram_is_subsequence", <<CInfo, dg.init_densities, dg.T_reduced, l>>,
+                    Len(dg.gamma) <= dg.requested /\ \A k \in 1..(Len(dg.T_reduced) - 1) : FLt(dg.T_reduced[k], dg.T_reduced[k + 1]))
+          /\ \A k \in 1..Len(dg.gamma) : \A c \in 1..Len(E.curve) :
+               (Has(E.curve[c], "gamma") /\ FClose(E.curve[c].T_reduced, dg.T_reduced[k], "1e-9", "1", "0")) =>
+                  Chk("C19.diagram_point_is_standalone", <<CInfo, dg.init_densities, dg.T_reduced[k], l>>, dg.gamma[k], E.curve[c].gamma, TolGammaGrid, FAbs(E.curve[c].gamma), "0")
+  /\ cnt' = BumpAll(BumpBy(cnt, "surface_tension_curve_points", Len(SelectSeq(E.curve \o E.near_critical, LAMBDA c : Has(c, "gamma")))),
+                {"surface_tension_curves"} \cup (IF \E d \in 1..Len(E.diagrams) : Len(E.diagrams[d].gamma) < E.diagrams[d].requested THEN {"diagrams_with_dropped_points"} ELSE {}))
+  /\ UNCHANGED refobs
+
+(* Adsorption isotherm drivers (continuation in pressure with hysteresis).  On any branch N does not decrease with p.  The    *)
+(* equilibrium isotherm is the lower envelope of branches each of which has dOmega/dmu = -N with N increasing, hence concave *)
+(* in mu: between consecutive points  -N_(k+1) dmu <= dOmega <= -N_k dmu  (no tolerance other than discretisation).         *)
+(* The same bracket holds on the adsorption / desorption branch wherever the branch is continuous; a step is taken as      *)
+(* continuous when N grows by less than the square of the pressure ratio.                                                    *)
+IInfo == <<E.functional, E.geometry, E.T_reduced, E.pore_size>>
+OkIdx(a) == {k \in 1..Len(a.ok) : a.ok[k]}
+Bracket(a, k, slack) ==
+  LET dmu == FSub(a.mu[k + 1], a.mu[k])
+      dom == FSub(a.omega[k + 1], a.omega[k])
+      lo == FNeg(FMul(FMax(a.N[k], a.N[k + 1]), dmu))
+      hi == FNeg(FMul(FMin(a.N[k], a.N[k + 1]), dmu))
+      s == FMul(slack, FAbs(FSub(hi, lo)))
+  IN FLe(FSub(lo, s), dom) /\ FLe(dom, FAdd(hi, s))
+Continuous(a, k) == FLe(FMul(a.N[k + 1], FMul(a.p[k], a.p[k])), FMul(a.N[k], FMul(a.p[k + 1], a.p[k + 1])))
+BranchLaws(name, a, needCont) ==
+  \A k \in 1..(Len(a.ok) - 1) : (a.ok[k] /\ a.ok[k + 1]) =>
+     /\ Report("C19.isotherm_pressures_increase", <<IInfo, name, k, l>>, FLt(a.p[k], a.p[k + 1]))
+     /\ Report("C19.isotherm_adsorption_monotone", <<IInfo, name, k, a.N[k], a.N[k + 1], l>>, FLe(a.N[k], FMul("1.000001", a.N[k + 1])))
+     /\ ((~needCont \/ Continuous(a, k)) => Report("C19.isotherm_gibbs_bracket", <<IInfo, name, k, l>>, Bracket(a, k, IF E.geometry = "slit" THEN "1e-6" ELSE "0.05")))
+Isotherm ==
+  /\ Ev("Isotherm")
+  /\ Report("C19.isotherm_no_panic", <<IInfo, IF Has(E, "panic") THEN E.panic ELSE "", l>>, ~Has(E, "panic"))
+  /\ (Has(E, "adsorption") => BranchLaws("adsorption", E.adsorption, TRUE))
+  /\ (Has(E, "desorption") => BranchLaws("desorption", E.desorption, TRUE))
+  /\ (Has(E, "equilibrium") => BranchLaws("equilibrium", E.equilibrium, FALSE))
+  /\ ((Has(E, "adsorption") /\ Has(E, "desorption") /\ Has(E, "equilibrium") /\ Len(E.equilibrium.ok) = E.requested) =>
+        \A k \in 1..E.requested : (E.adsorption.ok[k] /\ E.desorption.ok[k] /\ E.equilibrium.ok[k]) =>
+           /\ Chk("C19.equilibrium_isotherm_is_lower_envelope", <<IInfo, k, l>>, E.equilibrium.omega[k], FMin(E.adsorption.omega[k], E.desorption.omega[k]), "1e-7",
+                   FAbs(E.equilibrium.omega[k]), "0")
+           /\ Report("C19.desorption_branch_not_below_adsorption_branch", <<IInfo, k, l>>, FLe(E.adsorption.N[k], FMul("1.000001", E.desorption.N[k]))))
+  /\ cnt' = BumpAll(cnt, {"isotherms"} \cup (IF Has(E, "adsorption") THEN {"isotherm_adsorption"} ELSE {}) \cup (IF Has(E, "desorption") THEN {"isotherm_desorption"} ELSE {})
+                \cup (IF Has(E, "equilibrium") THEN {"isotherm_equilibrium"} ELSE {}))
+  /\ UNCHANGED refobs
+
 SkipEv == /\ Ev("Skip") /\ cnt' = Bump(cnt, "skipped") /\ UNCHANGED refobs
 
 Init == l = 1 /\ cnt = NoCount /\ refobs = <<>>
-Next == /\ (Uniform \/ Panic \/ Solve \/ SkipEv \/ Var1 \/ Var2 \/ Adjoint \/ BondVar)
+Next == /\ (Uniform \/ Panic \/ Solve \/ SkipEv \/ Var1 \/ Var2 \/ Adjoint \/ BondVar \/ Response \/ Henry \/ SurfaceTension \/ SurfaceTensionCurve \/ Isotherm)
         /\ (l' > NRec => PrintT("STATS " \o ToJson(cnt')))
 TraceSpec == Init /\ [][Next]_vars
 ================================================================================
